@@ -465,11 +465,18 @@ class StoreLib(LibBase):
             o = c.old
             e = c.args["event"]
             g = lib.grantable_put(cls, o)
-            return [
+            items = [
                 Def(RP, V.ite(g, V.list_append(o.f[RP], e), o.f[RP]), ("C01", "C04")),
                 DefHeap("triggered", z3.If(g, z3.Store(o.heap_arr("triggered"), e.t, True), o.heap_arr("triggered")),
                         ("C01", "C04")),
             ]
+            if p["belt"]:
+                # statement C12: successive items enter at least one item length (one slot delay) apart.  The admission
+                # test only looks at the last item that has ENTERED; a second grant while an earlier granted entry is
+                # still pending lets two items enter in the same instant
+                items.append(Clause("spacing.granted-only-when-no-other-entry-is-pending",
+                                    lambda c: z3.Implies(g, o.f[RP].len == 0), ("C12",)))
+            return items
         C["_do_reserve_put"] = FnContract(
             "_do_reserve_put", [("event", EV, None)], pre=pre_do_rp, post=post_do_rp, uses_inv=False,
             keeps_inv=False, modifies=(RP,), heap_modifies=("triggered",), result_kind=("bool",),
